@@ -175,9 +175,10 @@ Theorem multi_namespace_roundtrip_partial : forall (lower : text -> text) (nss :
 Proof. exact multi_namespace_roundtrip_l. Qed.
 Print Assumptions multi_namespace_roundtrip_partial.
 
-(* the titles the writer hands out are pairwise different strings ... *)
-Theorem block_titles_distinct : forall labels used ts, NoDup used ->
-  assign_titles labels used = Ok ts -> NoDup (used ++ ts).
+(* the (escaped) titles the writer hands out are pairwise different strings, whatever the escaping
+   function: the uniqueness loop tests the escaped title against the escaped titles given so far ... *)
+Theorem block_titles_distinct : forall (esc : tok -> text) labels used ts, NoDup used ->
+  assign_titles esc labels used = Ok ts -> NoDup (used ++ ts).
 Proof. exact assign_titles_distinct. Qed.
 Print Assumptions block_titles_distinct.
 
@@ -185,7 +186,7 @@ Print Assumptions block_titles_distinct.
    labelled "ns" and "NS" get different titles and neither LINK resolves (defect, replayed on
    the implementation by the harness). *)
 Theorem multi_namespace_title_case_refuted :
-  exists labels titles, assign_titles labels [] = Ok titles /\ NoDup titles
+  exists labels titles, assign_titles (fun t => t) labels [] = Ok titles /\ NoDup titles
     /\ exists t, In t titles /\ resolve_in (tab_of (map (fun x => (x, @nil text)) titles)) (Some t) [] = Err ParseErr.
 Proof. exact title_case_refuted_l. Qed.
 Print Assumptions multi_namespace_title_case_refuted.
